@@ -41,7 +41,11 @@ func (conn *Conn) delSTHandlers() {
 // Handle NICK messages that need to update the state tracker
 func (conn *Conn) h_STNICK(line *Line) {
 	// all nicks should be handled the same way, our own included
-	conn.st.ReNick(line.Nick, line.Args[0])
+	if nk := conn.st.ReNick(line.Nick, line.Args[0]); nk != nil && line.Nick == conn.cfg.Me.Nick {
+		// Keep cfg.Me current too: h_REGISTER reads it directly, so a
+		// reconnect would otherwise register with the nick we used to have.
+		conn.cfg.Me = nk
+	}
 }
 
 // Handle JOINs to channels to maintain state
